@@ -41,7 +41,7 @@ pub fn prop() -> Prop {
         stub: &["transport", "store", "glue", "random source", "replaying network"],
         independent: &["harness algebra for the expected group key"],
         ref_sample: |_| 0,
-        required_probes: &["histories_exhaustive_n3", "part3_ok_consistent_mixed_runs", "part3_rejected_cross_run_share", "part3_rejected_misaddressed_share", "global_assignments_checked", "signed_after_mixed_assignment", "runs_with_different_thresholds"],
+        required_probes: &["route_suite_crate_entry_points", "route_frost_core_generics", "histories_exhaustive_n3", "part3_ok_consistent_mixed_runs", "part3_rejected_cross_run_share", "part3_rejected_misaddressed_share", "global_assignments_checked", "signed_after_mixed_assignment", "runs_with_different_thresholds"],
         prepare: None,
     }
 }
@@ -99,6 +99,7 @@ struct RunMat<C: Suite> {
 
 fn exec_c<C: Suite>(scen: &Scenario) -> Exec {
     let mut rep = new_report(scen);
+    set_route(scen.run, &mut rep);
     let sim = match run_honest::<C>(scen, &mut rep) {
         Ok(s) => s,
         Err(v) if v.oracle == "harness" => return Exec::Harness(v.detail),
@@ -125,7 +126,7 @@ fn exec_c<C: Suite>(scen: &Scenario) -> Exec {
         let mut m = RunMat::<C> { r1_secret: s.into_iter().map(|x| x.unwrap()).collect(), r1_pkg: pk.into_iter().map(|x| x.unwrap()).collect(), r2_out: Vec::new() };
         for j in 0..n {
             let map: BTreeMap<Identifier<C>, round1::Package<C>> = (0..n).filter(|k| *k != j).map(|k| (ids[k], m.r1_pkg[k].clone())).collect();
-            match dkg::part2::<C>(m.r1_secret[j].clone(), &map) {
+            match dkg_part2::<C>(m.r1_secret[j].clone(), &map) {
                 Ok((_s, out)) => {
                     let by_node: BTreeMap<usize, round2::Package<C>> = (0..n).filter(|a| *a != j).map(|a| (a, out[&ids[a]].clone())).collect();
                     m.r2_out.push(by_node);
@@ -253,7 +254,7 @@ fn exec_c<C: Suite>(scen: &Scenario) -> Exec {
             let key = (own, r1_fill.clone());
             if !p2cache.contains_key(&key) {
                 let secret = runs[own].r1_secret[i].clone();
-                let r = catch_unwind(AssertUnwindSafe(|| dkg::part2::<C>(secret, &r1_map)));
+                let r = catch_unwind(AssertUnwindSafe(|| dkg_part2::<C>(secret, &r1_map)));
                 match r {
                     Err(_) => return Exec::Violation(Violation::new("C09", "C09.step_panicked", format!("part2 panicked: {}", desc())), rep),
                     Ok(Ok((s2, _))) => {
@@ -265,7 +266,7 @@ fn exec_c<C: Suite>(scen: &Scenario) -> Exec {
                 }
             }
             let Some(s2) = p2cache[&key].as_ref() else { continue };
-            let r = catch_unwind(AssertUnwindSafe(|| dkg::part3::<C>(s2, &r1_map, &r2_map)));
+            let r = catch_unwind(AssertUnwindSafe(|| dkg_part3::<C>(s2, &r1_map, &r2_map)));
             let res = match r {
                 Err(_) => return Exec::Violation(Violation::new("C09", "C09.step_panicked", format!("part3 panicked: {}", desc())), rep),
                 Ok(r) => r,
@@ -338,7 +339,7 @@ fn exec_c<C: Suite>(scen: &Scenario) -> Exec {
                 let r2_map: BTreeMap<Identifier<C>, round2::Package<C>> = (0..n).filter(|j| *j != i).map(|j| (ids[j], runs[own].r2_out[j][&i].clone())).collect();
                 rep.evaluations += 1;
                 let desc = format!("participant {i} (own run {own}) with its own round-1 package of run {echo} echoed into its own slot");
-                let r = catch_unwind(AssertUnwindSafe(|| dkg::part2::<C>(runs[own].r1_secret[i].clone(), &r1_map).and_then(|(s2, _)| dkg::part3::<C>(&s2, &r1_map, &r2_map))));
+                let r = catch_unwind(AssertUnwindSafe(|| dkg_part2::<C>(runs[own].r1_secret[i].clone(), &r1_map).and_then(|(s2, _)| dkg_part3::<C>(&s2, &r1_map, &r2_map))));
                 match r {
                     Err(_) => return Exec::Violation(Violation::new("C09", "C09.step_panicked", desc), rep),
                     Ok(Err(_)) => rep.probe("own_echo_refused"),
@@ -370,11 +371,11 @@ fn exec_c<C: Suite>(scen: &Scenario) -> Exec {
             let r1_map: BTreeMap<Identifier<C>, round1::Package<C>> = (0..n).filter(|j| *j != i).map(|j| (ids[j], runs[run_of(j)].r1_pkg[j].clone())).collect();
             let r2_map: BTreeMap<Identifier<C>, round2::Package<C>> = (0..n).filter(|j| *j != i).map(|j| (ids[j], runs[run_of(j)].r2_out[j][&i].clone())).collect();
             rep.evaluations += 1;
-            let s2 = match dkg::part2::<C>(runs[run_of(i)].r1_secret[i].clone(), &r1_map) {
+            let s2 = match dkg_part2::<C>(runs[run_of(i)].r1_secret[i].clone(), &r1_map) {
                 Ok((s, _)) => s,
                 Err(_) => break,
             };
-            match dkg::part3::<C>(&s2, &r1_map, &r2_map) {
+            match dkg_part3::<C>(&s2, &r1_map, &r2_map) {
                 Ok(x) => outs.push(x),
                 Err(_) => break,
             }
